@@ -218,6 +218,75 @@ def main(tier):
         except Exception as e:
             check.inconclusive.append(f'{ob.name}: bevy replay unavailable ({e})')
 
+    # ------------------------------------------------------------------ S5: the builders (which timeline a key ends up with)
+    try:
+        bfn = {k: [f for f in prog.by_last[k] if f.impl_self == 'AnimationSelectorBuilder'][0] for k in ('new', 'add', 'initial_key', 'build')}
+        cfn = {k: [f for f in prog.by_last[k] if f.impl_self == 'AnimationChainBuilder'][0] for k in ('new', 'add', 'build')}
+        sel_new = [f for f in prog.by_last['new'] if f.impl_self == 'AnimationSelector'][0]
+    except Exception as e:
+        bfn = None; check.inconclusive.append(f'builders: functions not found ({e})')
+    class RB: pass
+    def res_ob(name, words, ok, detail=''):
+        ob = Obligation(name, [], [], words=words)
+        rr = RB(); rr.secs = 0.0; rr.solver = 'symbolic-execution'; rr.detail = detail; rr.model = {}; rr.status = 'unsat' if ok else 'sat'
+        ob.result = rr; check.obligations.append(ob); return ob
+    if bfn:
+        for dup in (False, True):
+            world = World(); ecs = Ecs(prog, enums, world, tls)
+            m = Machine(prog, enums, overrides=[(re.compile(r'<K as (std::default::)?Default>::default$'), lambda m_, c_, a_: key(0)),
+                                                (re.compile(r'Box::<.*>::new$'), lambda m_, c_, a_: m_.alloc(a_[0]))] + ecs.overrides())
+            def hb(m):
+                b = m.call_fn(bfn['new'], [])
+                b = m.call_fn(bfn['add'], [b, key(1), tls.tl(1)])
+                b = m.call_fn(bfn['add'], [b, key(2), tls.tl(2)])
+                if dup: b = m.call_fn(bfn['add'], [b, key(1), tls.tl(3)])
+                b = m.call_fn(bfn['initial_key'], [b, key(2)])
+                return m.call_fn(bfn['build'], [b])
+            rs = [r for r in m.explore(hb) if r.outcome != 'infeasible']; check.note_machine(m); check.states += len(rs)
+            name = f'C19.builder.selector[{"duplicate-key" if dup else "distinct-keys"}]'
+            words = 'AnimationSelectorBuilder: new().add(Go, t1).add(Back, t2)' + ('.add(Go, t3)' if dup else '') + '.initial_key(Back).build() maps Go to ' + ('t3 (the timeline specified last)' if dup else 't1') + ', Back to t2, starts at Back with no previous key'
+            if len(rs) != 1 or rs[0].outcome != 'ok':
+                check.inconclusive.append(f'{name}: {[(r.outcome, r.msg) for r in rs][:2]}'); continue
+            sel = rs[0].value
+            try:
+                mp = sel.f[0]; ids = {}
+                for kd, cell in mp.entries.items():
+                    v = cell.v
+                    while isinstance(v, Ref): v = m.load(v)
+                    ids[kd] = z3.simplify(v.f[0].t).as_long()
+                ok = ids == {1: (3 if dup else 1), 2: 2} and sel.f[1].d == 2 and isinstance(sel.f[2].d, int) and sel.f[2].d == 0
+                detail = f'map {ids}, key {sel.f[1].d}'
+            except Exception as e:
+                ok = False; detail = f'unexpected selector value ({e})'
+            ob = res_ob(name, words, ok, detail)
+            if not ok:
+                try:
+                    nat = run_replay([{'kind': 'bevy_builder_dup'}], 'dev', 'replay_bevy', timeout=900)[0]
+                    check.traces_validated += 1
+                    if nat.get('violated'):
+                        check.report_violation(name, None, f'{words} FAILS on the executed builder MIR ({detail}); on a real App: {nat.get("detail")}', {'kind': 'bevy_builder_dup'})
+                        ob.finding_key = None; ob.replayed = True
+                    else:
+                        check.inconclusive.append(f'{name}: {detail}; not reproduced on the real App: {nat}')
+                except Exception as e:
+                    check.inconclusive.append(f'{name}: bevy replay unavailable ({e})')
+        world = World(); ecs = Ecs(prog, enums, world, tls)
+        m = Machine(prog, enums, overrides=ecs.overrides())
+        def hcb(m):
+            b = m.call_fn(cfn['new'], [])
+            b = m.call_fn(cfn['add'], [b, key(1), key(2)])
+            b = m.call_fn(cfn['add'], [b, key(2), key(0)])
+            return m.call_fn(cfn['build'], [b])
+        rs = [r for r in m.explore(hcb) if r.outcome != 'infeasible']; check.note_machine(m); check.states += len(rs)
+        if len(rs) == 1 and rs[0].outcome == 'ok':
+            try:
+                nk = {kd: (c.v.d if isinstance(c.v.d, int) else concrete(c.v.d)) for kd, c in rs[0].value.f[0].entries.items()}
+            except Exception:
+                nk = None
+            res_ob('C19.builder.chain', 'AnimationChainBuilder: new().add(Go, Back).add(Back, Idle).build() maps Go to Back and Back to Idle', nk == {1: 2, 2: 0}, str(nk))
+        else:
+            check.inconclusive.append(f'C19.builder.chain: {[(r.outcome, r.msg) for r in rs][:2]}')
+
     # ------------------------------------------------------------------ S4: two integrated frames, both system orders
     # the relative orders explored are the ones the REGISTERED schedule allows (bevy_schedule.py executes the real MIR of
     # AnimationPlugin::build and register_animation_key over a model of the App builder API)
@@ -292,12 +361,12 @@ def main(tier):
                               z3.And(z3.BoolVal(bool(tl_ok)), a2.f[1].f[0].t == d1 + d2 if False else z3.BoolVal(bool(tl_ok))))
     check.transitions = len(check.obligations)
     for ob in check.obligations:
-        if ob.result.status == 'sat' and not ob.finding_key:
+        if ob.result.status == 'sat' and not ob.finding_key and not ob.name.startswith('C19.builder.') and not ob.name.startswith('C19.schedule.'):
             check.inconclusive.append(f'{ob.name}: solver counterexample on the ECS model (no automatic App replay for this clause)')
     # counterexamples of the modelled clauses (other than the recorded finding) are replayed on the real App: key / frame histories
     # that pass through the pre-state of the failing step (previous key, then current key) and continue with every possible next
     # key, judged by the reference of replay_bevy::run_history; plus the fixed selector scenario
-    bad = [ob for ob in check.obligations if ob.result.status == 'sat' and not ob.finding_key]
+    bad = [ob for ob in check.obligations if ob.result.status == 'sat' and not ob.finding_key and not ob.name.startswith('C19.builder.')]
     # chain-step counterexamples: the solver's own event list is sent through the public Events resource of a real App
     chain_bad = [ob for ob in bad if hasattr(ob, 'chain_case')]
     if chain_bad:
